@@ -13,12 +13,24 @@ def register(prop):
          assumptions=["bound B = 2*N*(AwarenessMax*ProbeInterval+ProbeInterval) + AwarenessMax*ProbeInterval + SuspicionMaxTimeoutMult*SuspicionMult*max(1,log10 N)*ProbeInterval, N = number of node names in the plan",
                       "detection clock restarts when a survivor accepts a higher incarnation of the victim that was still in flight"])
 
+    prop("C10", [dict(scn="C10", quick=60000, thorough=3000000, wall_quick=60, wall_thorough=900)],
+         "generated operation histories (1-60 ops, thorough up to 600) of QueueBroadcast(named incl. empty name / unique / plain, sizes from a small set so equal "
+         "lengths are the norm) / GetBroadcasts(overhead, limit) / Prune / Reset / NumQueued with RetransmitMult 0-5 and a changing NumNodes, checked "
+         "operation by operation against a sequential reference model, then drained for conservation; non-trivial = >=2 broadcasts queued and >=1 "
+         "hand-out; distinct = distinct operation sequences (hash of the op list)",
+         assumptions=["reference retrieval order = tier by tier (fewest transmits), longest first, newest first, while the message plus overhead fits",
+                      "retransmit limit = RetransmitMult*ceil(log10(n+1)) with n sampled at each retrieval"])
+
 NOT_CLAIMED = {}
 
 SIM_NOTE = ("trusted base: Go runtime + testing/synctest fake clock, the harness (scheduler, SimNet, oracles) under /verif/sim; "
             "assumes the guarded yield sites are the relevant preemption points; seeded search, not proof")
 
 META = {
+ "C10": dict(
+    level_text="Generated operation histories against an executable sequential reference model (conservation, exactly-once Finished, size limit, retrieval order, NumQueued) with shrinking to a minimal failing history. The queue has no clock or concurrency of its own (fully mutex-serialised); the property quantifies over histories of a stateful object, which is this family's object-level use.",
+    design_ref="DESIGN.md §3 C10", level_note="trusted base: the reference model in sim/scn_c10.go; single caller thread (queue methods are fully serialised by one mutex)",
+    technique="deterministic simulation (object mode): seeded operation histories vs reference model, delta-debugged replay"),
  "C03": dict(
     level_text="Seeded exploration of real multi-node clusters in virtual time: every survivor must drop a crashed member and emit a leave event within a bound computed from the documented configuration, under loss/dup/delay/partitions/stream cuts among survivors. Exploration is the right level: the property quantifies over schedules and fault sequences of a timed distributed protocol; thousands of simulated minutes per batch are affordable only in virtual time.",
     design_ref="DESIGN.md §3 C03", level_note=SIM_NOTE,
